@@ -14,17 +14,18 @@ PROPS = {
     'C01': {
         'streams': [HIST('hist', 120, 1500), HIST('hist_index', 80, 1000, ['--focus', 'index']),
                     {'name': 'scale', 'quick': 1, 'thorough': 2, 'args': ['--backend', 'all']},
-                    {'name': 'c10', 'quick': 15, 'thorough': 200}, {'name': 'c16', 'quick': 150, 'thorough': 2000}],
+                    {'name': 'c10', 'quick': 15, 'thorough': 200}, {'name': 'c16', 'quick': 150, 'thorough': 2000},
+                    {'name': 'idx', 'quick': 5, 'thorough': 60, 'args': ['--backend', 'all']}, {'name': 'twin', 'quick': 3, 'thorough': 30, 'args': ['--backend', 'all']}],
         'assumptions': ['values in the supported domain, no NaN; names without ";"; canonical 36-character ids; Like patterns restricted to the modelled regexp sub-language in runs; for planner soundness: one numeric regime (integers beyond 2^53 not mixed with floats)'],
     },
     'C02': {
         'streams': [{'name': 'twin', 'quick': 8, 'thorough': 80, 'args': ['--backend', 'all']}, HIST('hist_index', 60, 800, ['--focus', 'index']),
-                    {'name': 'c10', 'quick': 15, 'thorough': 200}],
+                    {'name': 'c10', 'quick': 15, 'thorough': 200}, {'name': 'idx', 'quick': 5, 'thorough': 60, 'args': ['--backend', 'all']}],
         'assumptions': ['indexed values inside key_dom (numbers within 2^53, times 1970..2262): outside it index keys do not sort like compare (known finding K-float-key, C10_key_order_outside_dom_refuted)',
                         'for an unsorted skip/limit window the property promises a count, not an identity (C08): twins are compared on counts there'],
     },
     'C03': {
-        'streams': [{'name': 'scale', 'quick': 1, 'thorough': 3, 'args': ['--backend', 'all']}, HIST('hist_bulk', 80, 1000, ['--focus', 'bulk'])],
+        'streams': [{'name': 'scale', 'quick': 1, 'thorough': 3, 'args': ['--backend', 'all']}, HIST('hist_bulk', 80, 1000, ['--focus', 'bulk']), {'name': 'conc', 'quick': 6, 'thorough': 80, 'args': ['--backend', 'all']}],
         'assumptions': ['the behaviour of a live bbolt/badger cursor under mutation is outside the model (snapshot cursors); the scale runs tie that assumption to the code'],
     },
     'C04': {
@@ -36,7 +37,8 @@ PROPS = {
         'streams': [{'name': 'crash', 'quick': 3, 'thorough': 20},
                     {'name': 'fault', 'quick': 3, 'thorough': 10, 'args': ['--backend', 'all']},
                     {'name': 'scale', 'quick': 1, 'thorough': 2, 'args': ['--backend', 'bbolt,badgerdisk']},
-                    {'name': 'hist_reopen', 'cmd': 'hist', 'quick': 30, 'thorough': 300, 'args': ['--backend', 'bbolt,badgerdisk', '--focus', 'reopen']}],
+                    {'name': 'hist_reopen', 'cmd': 'hist', 'quick': 30, 'thorough': 300, 'args': ['--backend', 'bbolt,badgerdisk', '--focus', 'reopen']},
+                    {'name': 'hist_catalog', 'cmd': 'hist', 'quick': 30, 'thorough': 300, 'args': ['--backend', 'bbolt,badgerdisk', '--focus', 'catalog']}],
         'assumptions': ['the store commit itself is atomic and durable (bbolt meta-page swap + fsync, badger WAL): premise, not provable here; fsync, power loss and torn pages are outside the model and outside what a process kill exercises'],
     },
     'C06': {
@@ -50,7 +52,8 @@ PROPS = {
         'assumptions': ['partial: the theorem covers the transaction-structure logic (every operation is one store transaction under single-writer / snapshot-reader discipline); data races, the Go memory model, goroutine scheduling and badger conflict detection cannot be exhibited by an executable Gallina model and are covered by the harness only (-race build, perturbed schedules, linearizability search)'],
     },
     'C08': {
-        'streams': [HIST('hist_sort', 120, 1500, ['--focus', 'sort']), {'name': 'scale', 'quick': 1, 'thorough': 3, 'args': ['--backend', 'all']}],
+        'streams': [HIST('hist_sort', 120, 1500, ['--focus', 'sort']), {'name': 'scale', 'quick': 1, 'thorough': 3, 'args': ['--backend', 'all']},
+                    {'name': 'twin', 'quick': 3, 'thorough': 30, 'args': ['--backend', 'all']}, {'name': 'idx', 'quick': 5, 'thorough': 60, 'args': ['--backend', 'all']}],
         'assumptions': ['sortedness inside one numeric regime (integers beyond 2^53 not mixed with floats: otherwise compare is not transitive, C08 needs C10); ties (compare-equal keys, absent vs nil) are free'],
     },
     'C09': {
@@ -58,11 +61,11 @@ PROPS = {
         'assumptions': ['"does not alter the query object" is about aliasing: immutable Gallina values make it true by construction in the model; that clause is covered by the harness snapshot of query getters only'],
     },
     'C10': {
-        'streams': [{'name': 'c10', 'quick': 40, 'thorough': 600}],
+        'streams': [{'name': 'c10', 'quick': 40, 'thorough': 600}, {'name': 'idx', 'quick': 5, 'thorough': 60, 'args': ['--backend', 'all']}, {'name': 'twin', 'quick': 3, 'thorough': 30, 'args': ['--backend', 'all']}],
         'assumptions': ['no NaN; transitivity on triples where integers beyond 2^53 are not mixed with floats (cmp_dom3); key-order agreement inside key_dom: numbers within 2^53, times 1970..2262'],
     },
     'C11': {
-        'streams': [{'name': 'c11', 'quick': 40, 'thorough': 400, 'args': ['--backend', 'all']}],
+        'streams': [{'name': 'c11', 'quick': 40, 'thorough': 400, 'args': ['--backend', 'all']}, {'name': 'conc', 'quick': 6, 'thorough': 80, 'args': ['--backend', 'all']}],
         'assumptions': ['msgpack and gob are identities on wire values (contract; exercised by every read-back)'],
     },
     'C12': {
@@ -70,7 +73,7 @@ PROPS = {
         'assumptions': ['canonical ids in the theorems (uuid.FromString also accepts braced/urn/32-hex forms, outside the property domain)'],
     },
     'C13': {
-        'streams': [HIST('hist_catalog', 120, 1500, ['--focus', 'catalog']), {'name': 'scale', 'quick': 1, 'thorough': 3, 'args': ['--backend', 'all']}, {'name': 'json', 'quick': 4, 'thorough': 40, 'args': ['--backend', 'all']}],
+        'streams': [HIST('hist_catalog', 120, 1500, ['--focus', 'catalog']), {'name': 'scale', 'quick': 1, 'thorough': 3, 'args': ['--backend', 'all']}, {'name': 'json', 'quick': 4, 'thorough': 40, 'args': ['--backend', 'all']}, {'name': 'conc', 'quick': 6, 'thorough': 80, 'args': ['--backend', 'all']}],
         'assumptions': ['names free of ";" (valid UTF-8 in runs, because the metadata record is JSON)'],
     },
     'C14': {
@@ -92,7 +95,7 @@ PROPS = {
         'assumptions': ['key_dom on indexed values and bounds; ranges with at least one non-nil bound plus the nil-only range; an INCLUDED nil bound is read as the value nil (as the code does), an excluded one as unbounded'],
     },
     'C18': {
-        'streams': [{'name': 'c18', 'quick': 6, 'thorough': 80}],
+        'streams': [{'name': 'c18', 'quick': 6, 'thorough': 80}, {'name': 'c11', 'quick': 12, 'thorough': 120, 'args': ['--backend', 'all']}],
         'assumptions': ['Document.Unmarshal: clover\'s type-directed renaming is transcribed; the encoding/json round trip into a typed target is modelled by contract (Model/Unmarshal.v jdecode) inside the domain rt_ty/type_ok (ASCII names and strings, times with year 0..9999 and whole-minute offsets, finite floats, no []byte, json names distinct up to case); outside it the model answers undetermined and only the direct oracles apply'],
     },
     'C19': {
